@@ -1738,3 +1738,87 @@ def beam_expand_table(F, rep, rule="C03.7"):
     else:
         rep.holds(rule, "expand_state", "beam-search expansion: a successor path is the old path plus a fresh node; reaching a node already on the path ends the search "
                   "branch (Cycle) without repeating it (%d scenarios)" % rows)
+
+
+# =========================================================================== is_compressed (only when construction relies on it)
+
+def is_compressed_exact(F):
+    """Is `DebruijnGraph::is_compressed` exact — does it return None exactly when no node can be joined to its unique neighbour under the
+    step rule of the statement (one edge each way, neither node a single palindromic k-mer when the graph is UNSTRANDED, not the node
+    itself, join predicate accepts)?  Returns (True, None) / (False, description of a row it gets wrong) / (None, why undecided).
+    It is only an obligation when a construction path branches on its answer (the pinned tree uses it in a debug assertion only)."""
+    try:
+        body = pub_fn(F, "is_compressed")
+    except Unsupported as e:
+        return None, str(e)
+
+    class H(Oracles):
+        def on_call(self, it, fn, args, dest_ty, term, caller):
+            path = fn.get("path", "")
+            name = path.split("::")[-1]
+            if is_print_call(fn):
+                return Opaque(dest_ty, {"fmt"})
+            if path.startswith("graph::DebruijnGraph") and name == "len":
+                return Int(64, False, val=1)
+            if name == "k" and fn.get("trait") == "Kmer":
+                return Int(64, False, bits=[TOP] * 64, tags=frozenset({"K"}))
+            if path.startswith("graph::Node::<"):
+                n = recv(it, args[0])
+                nid = n.fields[0].val if isinstance(n, Adt) and isinstance(n.fields[0], Int) and n.fields[0].is_conc() else None
+                if name in ("edges", "l_edges", "r_edges"):
+                    d = dir_of(args[1]) if name == "edges" else (LEFT if name == "l_edges" else RIGHT)
+                    if nid == 0 and d == RIGHT and not getattr(self, "asked_next", False):
+                        cnt = self.choose("edges(node,Right)", (1, 0, 2))
+                        nxt = self.choose("neighbour", (1, 0))
+                        return VecV([Tup([Int(64, False, val=nxt if j == 0 else 1 - nxt), dir_v(LEFT), mkbool(False)]) for j in range(cnt)])
+                    if nid == 0 and d == LEFT and self.memo.get("neighbour") != 0:
+                        return VecV([])
+                    cnt = self.choose("edges(neighbour,Left)", (1, 0, 2))
+                    return VecV([Tup([Int(64, False, val=0), dir_v(RIGHT), mkbool(False)]) for _ in range(cnt)])
+                if name == "len":
+                    return Int(64, False, bits=[TOP] * 64, tags=frozenset({"len-of-%s" % nid}))
+                if name == "sequence":
+                    return Opaque("DnaStringSlice", {"seq"}, {"node": nid})
+                if name == "data":
+                    return Ref(Cell(Opaque("D", {"data"}, {"node": nid}), "data"))
+            if fn.get("trait") == "Vmer" and name in ("first_kmer", "get_kmer", "last_kmer", "term_kmer"):
+                s_ = recv(it, args[0])
+                return Opaque("K", {"kmer"}, {"node": s_.info.get("node")})
+            if fn.get("trait") == "Kmer" and name == "is_palindrome":
+                k = recv(it, args[0])
+                return mkbool(self.choose("palindrome(node %s)" % k.info.get("node"), (False, True)))
+            if name == "join_test":
+                return mkbool(self.choose("join", (True, False)))
+            return NotImplemented
+
+        def unknown_compare(self, it, op, a, b):
+            ta, tb = tags_of(a), tags_of(b)
+            for x, y in ((ta, tb), (tb, ta)):
+                if "K" in y and op in ("Eq", "Ne"):
+                    for t in x:
+                        if t.startswith("len-of-"):
+                            v = self.choose("single-k-mer(node %s)" % t[7:], (False, True))
+                            return v if op == "Eq" else not v
+            return None
+    try:
+        for stranded in (False, True):
+            def run(h, stranded=stranded):
+                it = Interp(F, False, h)
+                return it.call_body(body, [Ref(Cell(graph_value(F, stranded), "graph")), Ref(Cell(Opaque("S", {"spec"}), "spec"))])
+            for a, out, h in explore(lambda script: H(script), run):
+                if isinstance(out, tuple) and out and out[0] in ("inconclusive", "diverge"):
+                    return None, str(out[1])
+                if not (isinstance(out, Adt) and out.variant in (0, 1)):
+                    return None, "is_compressed returns %r" % (out,)
+                nb = a.get("neighbour", 1)
+                pal = lambda i: (not stranded) and a.get("single-k-mer(node %s)" % i, False) and a.get("palindrome(node %s)" % i, False)
+                want_some = a.get("edges(node,Right)", 1) == 1 and a.get("edges(neighbour,Left)", 1) == 1 and nb != 0 and not pal(0) and not pal(nb) and a.get("join", True)
+                # the same node seen from its neighbour's side does not exist in this script (len = 1): only the pair (0, neighbour) is judged
+                if bool(out.variant == 1) != bool(want_some):
+                    return False, "on a %s graph with %s it answers %s, but the two nodes %s be joined under the step rule (a single palindromic k-mer only " \
+                                  "stops a path when the graph is unstranded)" % ("stranded" if stranded else "unstranded",
+                                                                               {k: v for k, v in a.items()}, "`compressed`" if out.variant == 0 else "`not compressed`",
+                                                                               "can" if want_some else "cannot")
+    except (Unsupported, Undecided) as e:
+        return None, str(e)
+    return True, None
